@@ -17,4 +17,5 @@ CHECK = {'title': 'The fan receives the nearest value it supports',
                'with an independent reference; full-size maps only for three representative maps',
  'level_note': 'bounded: key universes of 8/12 keys and a 3-value output alphabet; binary-search behaviour depends only on the order structure of '
                'keys, which these universes cover (adjacent keys, even/odd gaps, range ends)',
- 'runs': [{'pkg': 'internal/util', 'test': 'TestVX_C12a', 'shards_quick': 4, 'shards_thorough': 16}]}
+ 'runs': [{'pkg': 'internal/util', 'test': 'TestVX_C12a', 'shards_quick': 4, 'shards_thorough': 16},
+          {'pkg': 'internal/controller', 'test': 'TestVX_C12b', 'shards_quick': 12, 'shards_thorough': 16}]}
